@@ -68,13 +68,31 @@ def sv_classes(rng, n_classes, rules=False):
     return "\n".join(txt), out
 
 
+def sv_hierarchy(rng, levels):
+    """a chain of classes SV0 : StateVariable, SV1 : SV0, ... with predicates declared at every level.
+    Returns (text, [(class name, [own predicate names], [all predicate names usable on its instances])])."""
+    txt, out, inherited, k = [], [], [], 0
+    for c in range(levels):
+        own = []
+        for _ in range(rng.randint(1, 2)):
+            own.append("P%d" % k)
+            k += 1
+        parent = "StateVariable" if c == 0 else "SV%d" % (c - 1)
+        txt.append("class SV%d : %s {\n%s\n}" % (c, parent, "\n".join("  predicate %s() { }" % p for p in own)))
+        inherited = inherited + own
+        out.append(("SV%d" % c, own, list(inherited)))
+    return "\n".join(txt), out
+
+
 def gen_sv_const(rng):
-    txt, classes = sv_classes(rng, 1)
-    cname, preds = classes[0]
-    # constants only: strip the duration constraints (they could make read() inconsistent and hide the sweep)
-    txt = "class %s : StateVariable {\n%s\n}" % (cname, "\n".join("  predicate %s() { }" % p for p in preds))
+    # constants only, no duration constraints in the predicates (they could make read() inconsistent and hide the sweep);
+    # half of the problems use a class hierarchy: the instances are of a class that derives from StateVariable only indirectly
+    # and carry atoms of predicates declared at every level of the chain
+    levels = rng.choice([1, 1, 2, 2, 3])
+    txt, chain = sv_hierarchy(rng, levels)
     n_inst = rng.randint(1, 2)
-    lines = [txt] + ["%s s%d = new %s();" % (cname, i, cname) for i in range(n_inst)]
+    inst_cls = [rng.choice(chain[max(0, levels - 2):]) for _ in range(n_inst)]      # the deepest classes
+    lines = [txt] + ["%s s%d = new %s();" % (inst_cls[i][0], i, inst_cls[i][0]) for i in range(n_inst)]
     n = rng.randint(2, 6 + EXTRA)
     zero = touch = 0
     ivs = []
@@ -98,8 +116,23 @@ def gen_sv_const(rng):
             zero += 1
         ivs.append((s, e))
         inst = rng.randrange(n_inst)
-        lines.append("fact f%d = new s%d.%s(start:%s, end:%s, duration:%s);" % (k, inst, rng.choice(preds), lit(s), lit(e), lit(e - s)))
-    return "\n".join(lines) + "\n", {"profile": "sv_const", "atoms": n, "zero_length": zero, "touching": touch, "sv_inst": n_inst}
+        lines.append("fact f%d = new s%d.%s(start:%s, end:%s, duration:%s);" % (k, inst, rng.choice(inst_cls[inst][2]), lit(s), lit(e), lit(e - s)))
+    return "\n".join(lines) + "\n", {"profile": "sv_const", "atoms": n, "zero_length": zero, "touching": touch, "sv_inst": n_inst,
+                                      "hierarchy": levels if levels > 1 else 0}
+
+
+def rr_hierarchy(rng, levels):
+    """ReusableResource subclasses with their own constructor (capacity) and their own Use-like predicate.
+    Returns (text, [(class name, [predicates usable on its instances])])."""
+    txt, out, preds = [], [("ReusableResource", ["Use"])], ["Use"]
+    names = ["Tool", "Drill"]
+    for c in range(levels - 1):
+        parent = "ReusableResource" if c == 0 else names[c - 1]
+        own = "U%d" % c
+        txt.append("class %s : %s {\n  %s(real c) : %s(c) {}\n  predicate %s() : Use { }\n}" % (names[c], parent, names[c], parent, own))
+        preds = preds + [own]
+        out.append((names[c], list(preds)))
+    return "\n".join(txt), out
 
 
 AMOUNTS = [0, 1, 1, 2, 2, 3, Fraction(1, 2), Fraction(3, 2), Fraction(5, 2)]
@@ -108,7 +141,10 @@ AMOUNTS = [0, 1, 1, 2, 2, 3, Fraction(1, 2), Fraction(3, 2), Fraction(5, 2)]
 def gen_rr_const(rng):
     n_inst = rng.randint(1, 2)
     caps = [rng.choice([0, 1, 2, 3, 4, 5, 6, Fraction(5, 2)]) for _ in range(n_inst)]
-    lines = ["ReusableResource r%d = new ReusableResource(%s);" % (i, lit(c)) for i, c in enumerate(caps)]
+    levels = rng.choice([1, 1, 2, 3, 3])
+    htxt, rchain = rr_hierarchy(rng, levels)
+    rcls = [rng.choice(rchain[max(0, levels - 2):]) for _ in range(n_inst)]
+    lines = ([htxt] if htxt else []) + ["%s r%d = new %s(%s);" % (rcls[i][0], i, rcls[i][0], lit(c)) for i, c in enumerate(caps)]
     n = rng.randint(2, 7 + EXTRA)
     zero = eqcap = zeroamt = 0
     ivs = []
@@ -141,8 +177,9 @@ def gen_rr_const(rng):
         prev = a
         if s == e:
             zero += 1
-        lines.append("fact u%d = new r%d.Use(start:%s, end:%s, duration:%s, amount:%s);" % (k, inst, lit(s), lit(e), lit(e - s), lit(a)))
-    return "\n".join(lines) + "\n", {"profile": "rr_const", "atoms": n, "zero_length": zero, "amount_eq_capacity": eqcap, "amount_zero": zeroamt, "rr_inst": n_inst}
+        lines.append("fact u%d = new r%d.%s(start:%s, end:%s, duration:%s, amount:%s);" % (k, inst, rng.choice(rcls[inst][1]), lit(s), lit(e), lit(e - s), lit(a)))
+    return "\n".join(lines) + "\n", {"profile": "rr_const", "atoms": n, "zero_length": zero, "amount_eq_capacity": eqcap, "amount_zero": zeroamt, "rr_inst": n_inst,
+                                      "hierarchy": levels if levels > 1 else 0}
 
 
 def usage_ok(placed, inst, s, e, amt, cap):
@@ -204,13 +241,24 @@ def witness_constraints(rng, wit, lines, meta, tight):
 
 
 def gen_sv_sched(rng, rules=False):
-    n_classes = rng.randint(1, 2)
-    # predicate table: class -> list of (name, kind, bound, rule) ; rule = (sub predicate index, how) | None
-    classes, txt = [], []
+    n_classes = rng.randint(1, 3)
+    # class c derives from StateVariable or (more often than not) from an earlier class: atoms of base-class predicates on
+    # instances of derived classes, existentials of a base type ranging over derived instances, rules of derived predicates
+    # with subgoals of base-class predicates.  P[(c, k)] = (name, duration constraint, rule);  rule = ((c2, k2), how)
+    parent, P, npred = {}, {}, {}
     for c in range(n_classes):
-        cname = "SV%d" % c
-        preds = []
-        for k in range(rng.randint(1, 3)):
+        parent[c] = rng.randrange(c) if (c > 0 and rng.random() < 0.65) else None
+
+    def ancestors(c):
+        out = []
+        while parent[c] is not None:
+            c = parent[c]
+            out.append(c)
+        return out
+    cnt = 0
+    for c in range(n_classes):
+        npred[c] = rng.randint(1, 3)
+        for k in range(npred[c]):
             r = rng.random()
             if r < 0.45:
                 dc = (">=", Fraction(rng.choice([1, 1, 2, 3, Fraction(1, 2)])))
@@ -219,29 +267,42 @@ def gen_sv_sched(rng, rules=False):
             else:
                 dc = None
             rule = None
-            if rules and k > 0 and rng.random() < 0.8:
-                rule = (rng.randrange(0, k), rng.choice(["meets", "meets", "before", "metby", "after"]))
-            preds.append(("P%d" % k, dc, rule))
+            earlier = [(c, j) for j in range(k)] + [(a, j) for a in ancestors(c) for j in range(npred[a])]
+            if rules and earlier and rng.random() < 0.8:
+                rule = (rng.choice(earlier), rng.choice(["meets", "meets", "before", "metby", "after"]))
+            P[(c, k)] = ("P%d" % cnt, dc, rule)
+            cnt += 1
+    txt = []
+    for c in range(n_classes):
         body = []
-        for nm, dc, rule in preds:
+        for k in range(npred[c]):
+            nm, dc, rule = P[(c, k)]
             stm = []
             if dc:
                 stm.append("duration %s %s;" % (dc[0], lit(dc[1])))
             if rule:
-                sub = preds[rule[0]][0]
+                sub = P[rule[0]][0]
                 stm.append({"meets": "goal g = new %s(end:start);", "before": "goal g = new %s(); g.end <= start;",
                             "metby": "goal g = new %s(start:end);", "after": "goal g = new %s(); g.start >= end;"}[rule[1]] % sub)
             body.append("  predicate %s() { %s }" % (nm, " ".join(stm)))
-        txt.append("class %s : StateVariable {\n%s\n}" % (cname, "\n".join(body)))
-        classes.append((cname, preds))
+        txt.append("class SV%d : %s {\n%s\n}" % (c, "StateVariable" if parent[c] is None else "SV%d" % parent[c], "\n".join(body)))
     lines = ["\n".join(txt)]
-    insts = {}
-    for cname, _ in classes:
-        k = rng.randint(1, 3 if not rules else 2)
-        insts[cname] = ["%s_%d" % (cname.lower(), i) for i in range(k)]
-        for nm in insts[cname]:
-            lines.append("%s %s = new %s();" % (cname, nm, cname))
-    meta = {"profile": "sv_rules" if rules else "sv_sched", "sv_inst": sum(len(v) for v in insts.values())}
+    own = {}
+    for c in range(n_classes):
+        k = rng.randint(1, 3 if not rules else 2) if not any(parent[d] == c for d in range(n_classes)) else rng.randint(0, 1)
+        own[c] = ["sv%d_%d" % (c, i) for i in range(k)]
+        for nm in own[c]:
+            lines.append("SV%d %s = new SV%d();" % (c, nm, c))
+
+    def all_insts(c):      # the instances an atom of a predicate declared in class c can be on: c's own and its descendants'
+        out = list(own[c])
+        for d in range(n_classes):
+            if c in ancestors(d):
+                out += own[d]
+        return out
+    usable = [c for c in range(n_classes) if all_insts(c)]
+    hier = sum(1 for c in range(n_classes) if parent[c] is not None)
+    meta = {"profile": "sv_rules" if rules else "sv_sched", "sv_inst": sum(len(v) for v in own.values()), "hierarchy": hier}
 
     def dur_for(dc):
         if dc is None:
@@ -251,18 +312,22 @@ def gen_sv_sched(rng, rules=False):
         return dc[1] + rng.choice([0, 0, 0, 1, Fraction(1, 2)])
 
     # hidden schedule: every instance is filled left to right; gaps are mostly 0 (touching atoms)
-    cursor = {i: Fraction(rng.choice([0, 0, 0, 1])) for v in insts.values() for i in v}
+    cursor = {i: Fraction(rng.choice([0, 0, 0, 1])) for v in own.values() for i in v}
     wit = []
     n = rng.randint(2, (6 if not rules else 3) + EXTRA)
     vars_ = 0
     for k in range(n):
-        cname, preds = rng.choice(classes)
-        pi = rng.randrange(len(preds))
-        inst = rng.choice(insts[cname])
+        c = rng.choice(usable)
+        pi = rng.randrange(npred[c])
+        cand = all_insts(c)
+        deep = [i for i in cand if i not in own[c]]
+        inst = rng.choice(deep) if (deep and rng.random() < 0.6) else rng.choice(cand)
+        if deep and inst in deep:
+            meta["base_predicate_on_derived_instance"] = meta.get("base_predicate_on_derived_instance", 0) + 1
         # atoms the rules will add before / after on the same instance (depth <= 3)
-        chain_before, chain_after, cur, depth = [], [], preds[pi], 0
+        chain_before, chain_after, cur, depth = [], [], P[(c, pi)], 0
         while cur[2] and depth < 3:
-            sub = preds[cur[2][0]]
+            sub = P[cur[2][0]]
             (chain_before if cur[2][1] in ("meets", "before") else chain_after).append(sub)
             cur = sub
             depth += 1
@@ -270,17 +335,17 @@ def gen_sv_sched(rng, rules=False):
         for sub in reversed(chain_before):
             t += dur_for(sub[1])
         t += rng.choice([0, 0, 0, 1, Fraction(1, 2)]) if not chain_before else 0
-        d = dur_for(preds[pi][1])
+        d = dur_for(P[(c, pi)][1])
         s, e = t, t + d
         t = e
         for sub in chain_after:
             t += dur_for(sub[1])
         cursor[inst] = t
-        kind = "fact" if (rng.random() < 0.3 and not preds[pi][2]) else "goal"
+        kind = "fact" if (rng.random() < 0.3 and not P[(c, pi)][2]) else "goal"
         nm = "%s%d" % (kind[0], k)
-        if len(insts[cname]) > 1 and rng.random() < 0.45:
+        if len(cand) > 1 and rng.random() < 0.45:
             v = "x%d" % k
-            lines.append("%s %s;" % (cname, v))          # an existential: tau stays a variable among the instances
+            lines.append("SV%d %s;" % (c, v))          # an existential of the declaring class: tau stays a variable among its (derived) instances
             scope = v
             vars_ += 1
         else:
@@ -291,7 +356,7 @@ def gen_sv_sched(rng, rules=False):
             args.append("duration:%s" % lit(d))
         if rng.random() < 0.15:
             args.append("start:%s" % lit(s))
-        lines.append("%s %s = new %s.%s(%s);" % (kind, nm, scope, preds[pi][0], ", ".join(args)))
+        lines.append("%s %s = new %s.%s(%s);" % (kind, nm, scope, P[(c, pi)][0], ", ".join(args)))
         if r >= 0.35 and rng.random() < 0.5 and d > 0:
             lines.append("%s.duration >= %s;" % (nm, lit(d)))
         if d == 0:
@@ -328,12 +393,23 @@ def gen_rr_sched(rng, with_sv=False):
         np_ = rng.randint(1, 2)
         preds = ["P%d" % k for k in range(np_)]
         lines.append("class %s : StateVariable {\n%s\n}" % (cname, "\n".join("  predicate %s() { }" % p for p in preds)))
-        sv = (cname, preds, ["sv_%d" % i for i in range(rng.randint(1, 2))])
+        icls = cname
+        if rng.random() < 0.5:      # the instances are of a derived class, used where the activity expects the base class
+            lines.append("class SV1 : SV0 {\n  predicate PX() { }\n}")
+            icls = "SV1"
+            meta["sv_hierarchy"] = 1
+        sv = (cname, preds, ["sv_%d" % i for i in range(rng.randint(1, 2))], icls)
+    levels = rng.choice([1, 1, 2, 3])
+    htxt, rchain = rr_hierarchy(rng, levels)
+    if htxt:
+        lines.append(htxt)
+    rcls = [rng.choice(rchain[max(0, levels - 2):]) for _ in range(n_rr)]
+    meta["hierarchy"] = levels if levels > 1 else 0
     for i, c in enumerate(caps):
-        lines.append("ReusableResource r%d = new ReusableResource(%s);" % (i, lit(c)))
+        lines.append("%s r%d = new %s(%s);" % (rcls[i][0], i, rcls[i][0], lit(c)))
     if sv:
         for nm in sv[2]:
-            lines.append("%s %s = new %s();" % (sv[0], nm, sv[0]))
+            lines.append("%s %s = new %s();" % (sv[3], nm, sv[3]))
     # a global activity that uses a resource (tau of the Use fact = the activity's parameter: a variable when it is left open)
     amt_t = min(caps) if rng.random() < 0.2 else min(min(caps), Fraction(rng.choice([1, 2, 2, 3, Fraction(3, 2), Fraction(1, 2)])))
     dmin_t = Fraction(rng.choice([1, 2]))
@@ -399,7 +475,7 @@ def gen_rr_sched(rng, with_sv=False):
                 meta["zero_length"] = meta.get("zero_length", 0) + 1
             if rng.random() < 0.2:
                 args.append("start:%s" % lit(s))
-            lines.append("fact %s = new r%d.Use(%s);" % (nm, i, ", ".join(args)))
+            lines.append("fact %s = new r%d.%s(%s);" % (nm, i, rng.choice(rcls[i][1]), ", ".join(args)))
         wit.append((nm, s, e, i))
     meta["atoms"] = n
     meta["tau_var"] = vars_
